@@ -74,7 +74,7 @@ func TestVerifC20Turbotunnel(t *testing.T) {
 			go func(g int) {
 				defer wg.Done()
 				addr := c20addr(fmt.Sprintf("client-%d", g%nClients))
-				q := c.OutgoingQueue(addr)
+				_ = c.OutgoingQueue(addr)
 				for k := 0; ; k++ {
 					select {
 					case <-stop:
@@ -84,11 +84,17 @@ func TestVerifC20Turbotunnel(t *testing.T) {
 					c.QueueIncoming([]byte{byte(g), byte(k)}, addr)
 					atomic.AddInt64(&in, 1)
 					if round%2 == 0 { // odd rounds: nobody drains, the send queues run full
+						// the queue is looked up anew at every turn, as turbotunnelMode's write loop does
+						// (two carriers of one client look the same record up at the same time)
 						select {
-						case <-q:
-							atomic.AddInt64(&got, 1)
+						case _, ok := <-c.OutgoingQueue(addr):
+							if ok {
+								atomic.AddInt64(&got, 1)
+							}
 						default:
 						}
+					} else if k%64 == 0 {
+						_ = c.OutgoingQueue(addr)
 					}
 				}
 			}(g)
